@@ -1,15 +1,29 @@
 //! Correspondence harness: runs the real cadence crates (path dependency on
 //! /repo, built from its current working tree) on the cases of a case file and
 //! prints one canonical observation line per case.
-mod mlw;
+#![allow(dead_code)]
 mod util;
+
+macro_rules! bins {
+    ($($name:ident),*) => {
+        $(mod $name;)*
+        fn dispatch(bin: &str, line: &str) -> Option<String> {
+            match bin {
+                $(stringify!($name) => Some($name::run_case(line)),)*
+                _ => None,
+            }
+        }
+    };
+}
+
+bins!(mlw, wire, send, queue, conc, sock, mac, singleton, hostile);
 
 use std::io::{BufRead, Write};
 
 fn main() {
     let args: Vec<String> = std::env::args().collect();
     if args.len() < 3 {
-        eprintln!("usage: harness <bin> <casefile> [args...]");
+        eprintln!("usage: harness <bin> <casefile>");
         std::process::exit(2);
     }
     util::quiet_panics();
@@ -22,13 +36,13 @@ fn main() {
         if line.is_empty() || line.starts_with('#') {
             continue;
         }
-        let obs = match args[1].as_str() {
-            "mlw" => mlw::run_case(line),
-            other => {
-                eprintln!("unknown bin {}", other);
+        match dispatch(&args[1], line) {
+            Some(obs) => writeln!(out, "{}", obs).unwrap(),
+            None => {
+                eprintln!("unknown bin {}", args[1]);
                 std::process::exit(2);
             }
-        };
-        writeln!(out, "{}", obs).unwrap();
+        }
+        out.flush().unwrap();
     }
 }
